@@ -4,6 +4,28 @@ fbase::primes, fbase::PrimeSieve, ecm::SmoothBase::new, pollard_pm1::PM1Base::ne
 exponent stream of pollard_pm1::pm1_impl.
 Request lines: see lean/Ymq/Drv/Primes.lean and harness/src/ops_primes.rs.
 """
+# SIZE AUDIT (quick tier)  [measured with seed 1]
+# Widths in the code: fbase::primes(n) sieves up to max(100, n * bitlen n) in u32 (overflow from n = 153391690; callers go to
+# 2*fb_size + 40, 70000, 50000); PrimeSieve = 65536 blocks of 2^16 numbers, u32 primes up to 4294967291; SmoothBase::new(b1: usize)
+# casts b1 to u32 and switches its prime source at 65536 and its block kind at 4096 (ecm() passes B1 = 200 .. 350e6); pm1_impl takes
+# b1: u64 with `largeblocks = b1 >= 65536` (pm1 passes B1 = 600 .. 300e6, among them 1<<20, 4<<20, 16<<20 = 2^24). The theorems are
+# unconditional up to B1 = 2^24 (smoothbase_divides_16M), under the named gap hypothesis up to 65535*65536.
+#
+# op                quick max            thorough max   supported / used by the code        boundaries reached by quick BEFORE this audit
+# primes            70000 (+4 overflow   10^6           < 153391690 (gigabytes near the     every k <= 20000; 2^e-1, 2^e, 2^e+1 for e <= 14; 32767,
+#                   k in chk, no oracle)                top: not exercised); callers <~ 10^6 32768, 65536, 70000; u32 overflow 153391690.. (chk): never
+#                                                                                           65535, 2^17, 2^18, 2^20 (bit length of k changes)
+# primesieve_block  all 65536 blocks (walk) + 253 blocks element-wise incl. 0..39, 255..257, 4095/4096, 32767/32768, 65533..65535, end
+#                   markers 65536, 65537, 65540: the whole domain, complete
+# sb_new            10^6                 10^7           < 65535*65536; ecm() to 350e6       every B1 <= 5000; +-150 around 4096 and 65536; prime-power
+# pm1_exponents     10^6                 10^7           < 4294967291; pm1 to 300e6          neighbours to 10^6; 2^17+-1; 103 / 85 random values in
+#                                                                                           200000..10^6. Never above 10^6: not 2^20 (= pm1's 1<<20),
+#                                                                                           not ecm's 1.5e6 / 3e6, not pm1's 4<<20, not 2^24 (limit of
+#                                                                                           the unconditional theorems and pm1's 16<<20)
+# Added by the audit (boundary_cases, yielded first in both tiers): primes(k) at 65535, 2^17+-1, 2^18+-1 (model-compared) and 2^20;
+# sb_new at 2^20-1, 2^20, 2^20+1 (both block kinds), 1500000, 3000000, 4194304, 16777216; pm1_exponents at 1048576, 2000000, 4194304,
+# 16777216 (model-compared up to 2e6); thorough adds 2^24+1, 2^25 and 60e6 / 45e6. Not reachable in any tier: B1 >= 10^8 (answers of
+# hundreds of megabytes), primes(k) near the u32 overflow (gigabytes), B1 >= 65535*65536 (a complete sieve walk per request).
 from vlib.pipeline import Case
 
 PID = "C17"
@@ -28,7 +50,10 @@ HYPOTHESES = [
 ]
 PROFILES = ["release", "chk"]
 TIMEOUT = 25.0
-RULE = ("primes(k): every k <= 20000 (oracle; model-compared for k <= 800 and a sample beyond), the full list for k = 20000, boundary k of the "
+RULE = ("boundary family first (both tiers): primes(k) at 65535, 2^17+-1, 2^18+-1, 2^20; SmoothBase::new at 2^20-1, 2^20, 2^20+1, 1500000, "
+        "3000000, 4194304 and 2^24, pm1 stage 1 at 2^20, 2000000, 4194304 and 2^24 (values ecm()/pm1() really pass; 2^24 is the limit of the "
+        "unconditional theorems; thorough: also 2^24+1, 2^25, 45e6 / 60e6); then "
+        "primes(k): every k <= 20000 (oracle; model-compared for k <= 800 and a sample beyond), the full list for k = 20000, boundary k of the "
         "bound formula, the u32-overflow k in the checked profile; PrimeSieve: blocks 0..39, 200 sampled, the last 3 and the end markers "
         "element-wise against an independent segmented sieve, the complete walk of 65536 blocks (count, order, emptiness, end); "
         "SmoothBase::new: every B1 <= 5000 with and without large blocks, every B1 within 150 of 4096 and 65536, prime-power neighbours, "
@@ -238,7 +263,31 @@ def pm1_cases(tier, rng, extended):
         yield Case(f"pm1_exponents {b1}", k=model_compared(b1, rng, extended, nb), tag="pm1")
 
 
+def boundary_cases(rng, tier):
+    """size audit: B1 and k above the caps of the random families (10^6 quick, 10^7 thorough), at the values the library really
+    passes and at the limit 2^24 of the unconditional theorems. Deterministic (the stream `rng` is not used)."""
+    for k in (65535, 131071, 131072, 131073, 262143, 262144, 262145):
+        yield Case(f"primes {k}", tag="primes")
+    yield Case(f"primes {1 << 20}", k=False, tag="primes")
+    for b1 in ((1 << 20) - 1, 1 << 20, (1 << 20) + 1):
+        for lg in (0, 1):
+            yield Case(f"sb_new {b1} {lg}", tag="smoothbase")
+    yield Case("sb_new 1500000 1", tag="smoothbase")
+    for b1 in (3000000, 4 << 20, 1 << 24):
+        yield Case(f"sb_new {b1} 1", k=False, timeout=120.0, tag="smoothbase")
+    for b1 in (1 << 20, 2000000):
+        yield Case(f"pm1_exponents {b1}", tag="pm1")
+    for b1 in (4 << 20, 1 << 24):
+        yield Case(f"pm1_exponents {b1}", k=False, timeout=120.0, tag="pm1")
+    if tier != "quick":
+        for b1 in ((1 << 24) + 1, 1 << 25, 60000000):
+            yield Case(f"sb_new {b1} 1", k=False, timeout=300.0, tag="smoothbase")
+        for b1 in ((1 << 24) + 1, 1 << 25, 45000000):
+            yield Case(f"pm1_exponents {b1}", k=False, timeout=300.0, tag="pm1")
+
+
 def cases(tier, rng, extended=False):
+    yield from boundary_cases(rng, tier)
     yield from primes_cases(tier, rng, extended)
     yield from smooth_cases(tier, rng, extended)
     yield from pm1_cases(tier, rng, extended)
